@@ -39,172 +39,244 @@ def run(eng, R):
     H = p.cls(MOD, "HistContainer")
 
     # ------------------------------------------------------------------ G1: flush before content read
-    R.rule("G1", "every HistContainer function that reads the content of the count store _data first flushes pending entries "
-                 "(self._fill_unprocessed() / self.data), or is flush-independent by construction (adds len(_unprocessed_entries))", 4)
+    with R.guard("G1: flush before content read"):
+        R.rule("G1", "every HistContainer function that reads the content of the count store _data first flushes pending entries "
+                     "(self._fill_unprocessed() / self.data), or is flush-independent by construction (adds len(_unprocessed_entries))", 4)
 
-    def flush_nodes(f, g):
-        sat = set()
-        for n in g.stmt_nodes():
-            for c in eng.calls_in_parts(n.ast_parts()):
-                if isinstance(c.func, ast.Attribute) and c.func.attr == "_fill_unprocessed" and is_self(c.func.value):
-                    conds = common.guard_conditions(f.node, c)
-                    # unconditional, or guarded only by the truthiness of the pending list (the callee returns early when empty)
-                    if all(pol and self_attr(t) == "_unprocessed_entries" for t, pol in conds):
-                        if conds:
-                            # the guarding test node dominates both branches: mark the test node
-                            for m in g.nodes:
-                                if m.kind == "test" and m.expr is conds[0][0]:
-                                    sat.add(m.id)
-                        else:
+        def flush_nodes(f, g):
+            sat = set()
+            for n in g.stmt_nodes():
+                for c in eng.calls_in_parts(n.ast_parts()):
+                    if isinstance(c.func, ast.Attribute) and c.func.attr == "_fill_unprocessed" and is_self(c.func.value):
+                        conds = common.guard_conditions(f.node, c)
+                        # unconditional, or guarded only by the truthiness of the pending list (the callee returns early when empty)
+                        if all(pol and self_attr(t) == "_unprocessed_entries" for t, pol in conds):
+                            if conds:
+                                # the guarding test node dominates both branches: mark the test node
+                                for m in g.nodes:
+                                    if m.kind == "test" and m.expr is conds[0][0]:
+                                        sat.add(m.id)
+                            else:
+                                sat.add(n.id)
+                for part in n.ast_parts():
+                    for sub in walk_no_nested(part):
+                        if isinstance(sub, ast.Attribute) and sub.attr == "data" and is_self(sub.value) and isinstance(sub.ctx, ast.Load):
                             sat.add(n.id)
-            for part in n.ast_parts():
-                for sub in walk_no_nested(part):
-                    if isinstance(sub, ast.Attribute) and sub.attr == "data" and is_self(sub.value) and isinstance(sub.ctx, ast.Load):
-                        sat.add(n.id)
-        return sat
+            # the filler written out in place (canonical program): `if self._unprocessed_entries: <body that empties the pending list>` is the flush
+            for m in g.nodes:
+                if m.kind == "test" and isinstance(m.stmt, ast.If) and self_attr(m.expr) == "_unprocessed_entries" and _empties_pending(m.stmt.body):
+                    sat.add(m.id)
+            return sat
 
-    writers = {"__init__", "_fill_unprocessed", "rebin", "set_bins", "fill"}
-    for cls, f in eng.functions_of_family(H):
-        if cls is not H or f.name in writers or eng.absorbed(f):
-            continue  # (a private helper that is written out in all its callers is decided there)
-        f = eng.cfunc(f)
-        g = eng.cfg(f)
-        reads = []
-        for n in g.stmt_nodes():
-            for part in n.ast_parts():
-                for sub in walk_no_nested(part):
-                    if isinstance(sub, ast.Attribute) and self_attr(sub) == "_data" and isinstance(sub.ctx, ast.Load):
-                        par = common.parents_of(f.node).get(id(sub))
-                        # shape-only uses
-                        if isinstance(par, ast.Call) and isinstance(par.func, ast.Name) and par.func.id == "len":
-                            continue
-                        if isinstance(par, ast.Attribute) and par.attr in ("shape", "size", "ndim", "dtype"):
-                            continue
-                        reads.append((n, sub))
-        if not reads:
-            continue
-        # flush-independent by construction: the same expression adds the number of pending entries
-        src = ast.unparse(f.node)
-        independent = "len(self._unprocessed_entries)" in src and any(
-            isinstance(b, ast.BinOp) and isinstance(b.op, ast.Add) and "len(self._unprocessed_entries)" in ast.unparse(b) and "self._data" in ast.unparse(b)
-            for b in ast.walk(f.node))
-        if independent:
-            R.ob("G1", f.qualname, True, eng.where(f), "%s counts pending entries separately (flush-independent)" % f.qualname)
-            continue
-        sat = flush_nodes(f, g)
-        for n, sub in reads:
-            ok, wit = g.dominated_by(n.id, lambda m: m.id in sat)
-            ok = ok or n.id in sat and False
-            R.ob("G1", f.qualname, ok, eng.where(f, sub),
-                 "%s reads the counts (%s) without flushing pending entries: the result depends on whether `data` was read before" % (f.qualname, norm_stmt(common.enclosing_stmt(f.node, sub))[:60])
-                 if not ok else "%s flushes before reading counts" % f.qualname)
+        def _empties_pending(body):
+            for st in ast.walk(ast.Module(body=list(body), type_ignores=[])):
+                if isinstance(st, ast.Assign):
+                    tg, vals = [], []
+                    for t in st.targets:
+                        if isinstance(t, ast.Tuple) and isinstance(st.value, ast.Tuple) and len(t.elts) == len(st.value.elts):
+                            tg += list(t.elts)
+                            vals += list(st.value.elts)
+                        else:
+                            tg.append(t)
+                            vals.append(st.value)
+                    for t, v in zip(tg, vals):
+                        if self_attr(t) == "_unprocessed_entries" and isinstance(v, (ast.List, ast.Tuple)) and not v.elts:
+                            return True
+            return False
+
+        def in_flush_region(f, node):
+            return any(pol and self_attr(t) == "_unprocessed_entries" for t, pol in common.guard_conditions(f.node, node))
+
+        writers = {"__init__", "_fill_unprocessed", "rebin", "set_bins", "fill"}
+        for cls, f in eng.functions_of_family(H):
+            if cls is not H or f.name in writers or eng.absorbed(f):
+                continue  # (a private helper that is written out in all its callers is decided there)
+            f = eng.cfunc(f)
+            g = eng.cfg(f)
+            reads = []
+            for n in g.stmt_nodes():
+                for part in n.ast_parts():
+                    for sub in walk_no_nested(part):
+                        if isinstance(sub, ast.Attribute) and self_attr(sub) == "_data" and isinstance(sub.ctx, ast.Load):
+                            par = common.parents_of(f.node).get(id(sub))
+                            # shape-only uses
+                            if isinstance(par, ast.Call) and isinstance(par.func, ast.Name) and par.func.id == "len":
+                                continue
+                            if isinstance(par, ast.Attribute) and par.attr in ("shape", "size", "ndim", "dtype"):
+                                continue
+                            reads.append((n, sub))
+            if not reads:
+                continue
+            # flush-independent by construction: the same expression adds the number of pending entries
+            src = ast.unparse(f.node)
+            independent = "len(self._unprocessed_entries)" in src and any(
+                isinstance(b, ast.BinOp) and isinstance(b.op, ast.Add) and "len(self._unprocessed_entries)" in ast.unparse(b) and "self._data" in ast.unparse(b)
+                for b in ast.walk(f.node))
+            if independent:
+                R.ob("G1", f.qualname, True, eng.where(f), "%s counts pending entries separately (flush-independent)" % f.qualname)
+                continue
+            sat = flush_nodes(f, g)
+            for n, sub in reads:
+                ok, wit = g.dominated_by(n.id, lambda m: m.id in sat)
+                ok = ok or n.id in sat and False
+                R.ob("G1", f.qualname, ok, eng.where(f, sub),
+                     "%s reads the counts (%s) without flushing pending entries: the result depends on whether `data` was read before" % (f.qualname, norm_stmt(common.enclosing_stmt(f.node, sub))[:60])
+                     if not ok else "%s flushes before reading counts" % f.qualname)
 
     # ------------------------------------------------------------------ G2: index conventions
-    R.rule("G2", "underflow/overflow/data/size/error-reference use the index convention of the filler (0 | 1:-1 | -1; size = len-2)", 4)
-    want = {"underflow": "0", "overflow": "-1", "data": "1:-1", "_get_error_reference": "1:-1"}
-    for name, idx in want.items():
-        f = H.find_prop(name).fget if H.find_prop(name) else H.find_method(name)
-        if f is None:
-            raise AnalysisError("anchor HistContainer.%s not found" % name)
-        f = eng.cfunc(f)
-        rets = [n for n in ast.walk(f.node) if isinstance(n, ast.Return) and n.value is not None]
-        subs = [s for r in rets for s in ast.walk(r.value) if _subscript_of_data(s)]
-        ok = bool(subs) and all(_index_repr(s) == idx for s in subs)
-        R.ob("G2", "HistContainer.%s" % name, ok, eng.where(f), "%s returns _data[%s], expected _data[%s]" % (name, ",".join(_index_repr(s) for s in subs), idx))
+    with R.guard("G2: index conventions"):
+        R.rule("G2", "underflow/overflow/data/size/error-reference use the index convention of the filler (0 | 1:-1 | -1; size = len-2)", 4)
+        want = {"underflow": "0", "overflow": "-1", "data": "1:-1", "_get_error_reference": "1:-1"}
+        for name, idx in want.items():
+            f = H.find_prop(name).fget if H.find_prop(name) else H.find_method(name)
+            if f is None:
+                raise AnalysisError("anchor HistContainer.%s not found" % name)
+            f = eng.cfunc(f)
+            rets = [n for n in ast.walk(f.node) if isinstance(n, ast.Return) and n.value is not None]
+            subs = [s for r in rets for s in ast.walk(r.value) if _subscript_of_data(s)]
+            ok = bool(subs) and all(_index_repr(s) == idx for s in subs)
+            R.ob("G2", "HistContainer.%s" % name, ok, eng.where(f), "%s returns _data[%s], expected _data[%s]" % (name, ",".join(_index_repr(s) for s in subs), idx))
 
     # ------------------------------------------------------------------ G3: the filler
-    f = p.method(H, "_fill_unprocessed")
-    g = eng.cfg(f)
-    R.rule("G3a", "bin advance happens exactly when entry >= current upper edge (closed below / open above) and the terminal test compares the edge with `high`", 2)
-    R.rule("G3b", "every path through the fill loop that advances the entry cursor increments exactly one count by 1 and records the entry as processed", 1)
-    R.rule("G3c", "entries left after the loop are added to the overflow count with their number and recorded as processed", 2)
-    R.rule("G3d", "the pending list is emptied on every normal exit that processed entries; entries are sorted before the single pass", 2)
-    R.rule("G3e", "the filler starts in the underflow bin with upper edge = low and walks bins one by one taking edges from _bin_edges[index]", 3)
+    with R.guard("G3: the filler"):
+        f = p.method(H, "_fill_unprocessed")
+        g = eng.cfg(f)
+        R.rule("G3a", "bin advance happens exactly when entry >= current upper edge (closed below / open above) and the terminal test compares the edge with `high`", 2)
+        R.rule("G3b", "every path through the fill loop that advances the entry cursor increments exactly one count by 1 and records the entry as processed", 1)
+        R.rule("G3c", "entries left after the loop are added to the overflow count with their number and recorded as processed", 2)
+        R.rule("G3d", "the pending list is emptied on every normal exit that processed entries; entries are sorted before the single pass", 2)
+        R.rule("G3e", "the filler starts in the underflow bin with upper edge = low and walks bins one by one taking edges from _bin_edges[index]", 3)
 
-    _filler(eng, R, H, f, g, p)
+        # independent of how the pass over the bins is written: the record of processed entries is only ever *extended* by the filler (a plain store would forget the entries
+    # of earlier passes: a later rebin then loses them)
+    R.rule("G3f", "the filler never replaces the list of processed entries: every store to _processed_entries in _fill_unprocessed extends it (+=, append, extend, or a value built from the old list)", 1)
+    with R.guard("G3f"):
+        fnode_ = eng.cnode(f, paths=True)
+        bad_ = []
+        n_ = 0
+        for st in ast.walk(fnode_):
+            if isinstance(st, ast.Assign):
+                pairs = []
+                for t in st.targets:
+                    if isinstance(t, ast.Tuple) and isinstance(st.value, ast.Tuple) and len(t.elts) == len(st.value.elts):
+                        pairs += list(zip(t.elts, st.value.elts))
+                    else:
+                        pairs.append((t, st.value))
+                for t, v in pairs:
+                    if self_attr(t) == "_processed_entries":
+                        n_ += 1
+                        if not any(self_attr(x) == "_processed_entries" for x in ast.walk(v)):
+                            bad_.append(st)
+            elif isinstance(st, ast.AugAssign) and self_attr(st.target) == "_processed_entries":
+                n_ += 1
+            elif isinstance(st, ast.Call) and isinstance(st.func, ast.Attribute) and st.func.attr in ("append", "extend") and self_attr(st.func.value) == "_processed_entries":
+                n_ += 1
+        R.ob("G3f", "_fill_unprocessed:processed list extended", n_ > 0 and not bad_, eng.where(f, bad_[0] if bad_ else None),
+             "the filler %s: entries processed by an earlier pass are forgotten, a later rebin() re-queues only the last batch" % (
+                 "assigns a new list to _processed_entries (%s)" % norm_stmt(bad_[0])[:80] if bad_ else "never records processed entries"))
+    with R.guard("G3 single pass over the bins"):
+        _filler(eng, R, H, f, g, p)
 
     # ------------------------------------------------------------------ G4: rebin / fill / raw_data / n_entries
-    R.rule("G4", "rebin zeroes the counts, re-queues all processed entries before clearing them; fill queues every entry; raw_data = processed + pending", 5)
-    rb = eng.cfunc(p.method(H, "rebin"))
-    grb = eng.cfg(rb)
+    with R.guard("G4: rebin / fill / raw_data / n_entries"):
+        R.rule("G4", "rebin zeroes the counts, re-queues all processed entries before clearing them; fill queues every entry; raw_data = processed + pending", 5)
+        rb = eng.cfunc(p.method(H, "rebin"))
+        grb = eng.cfg(rb)
 
-    # a local that only names the pending list (`_out = self._unprocessed_entries; _out += ...` extends the same list in place)
-    pend_alias = {a.targets[0].id for a in ast.walk(rb.node) if isinstance(a, ast.Assign) and len(a.targets) == 1 and isinstance(a.targets[0], ast.Name) and self_attr(a.value) == "_unprocessed_entries"}
-    pend_alias = {k for k in pend_alias if sum(1 for a in ast.walk(rb.node) if isinstance(a, ast.Assign) and any(isinstance(t, ast.Name) and t.id == k for t in a.targets)) == 1}
+        # a local that only names the pending list (`_out = self._unprocessed_entries; _out += ...` extends the same list in place)
+        pend_alias = {a.targets[0].id for a in ast.walk(rb.node) if isinstance(a, ast.Assign) and len(a.targets) == 1 and isinstance(a.targets[0], ast.Name) and self_attr(a.value) == "_unprocessed_entries"}
+        pend_alias = {k for k in pend_alias if sum(1 for a in ast.walk(rb.node) if isinstance(a, ast.Assign) and any(isinstance(t, ast.Name) and t.id == k for t in a.targets)) == 1}
 
-    def is_pending(e):
-        return self_attr(e) == "_unprocessed_entries" or (isinstance(e, ast.Name) and e.id in pend_alias)
+        def is_pending(e):
+            return self_attr(e) == "_unprocessed_entries" or (isinstance(e, ast.Name) and e.id in pend_alias)
 
-    def requeue(n):
-        st = n.stmt
-        if n.kind == "stmt" and isinstance(st, ast.AugAssign) and isinstance(st.op, ast.Add) and is_pending(st.target) and self_attr(st.value) == "_processed_entries":
-            return True
-        if n.kind == "stmt" and isinstance(st, ast.Assign) and any(self_attr(t) == "_unprocessed_entries" for t in st.targets):
-            txt = ast.unparse(st.value)
-            return "self._processed_entries" in txt and "self._unprocessed_entries" in txt and isinstance(st.value, ast.BinOp) and isinstance(st.value.op, ast.Add)
-        for c in eng.calls_in_parts(n.ast_parts()):
-            if isinstance(c.func, ast.Attribute) and c.func.attr == "extend" and is_pending(c.func.value) and c.args and self_attr(c.args[0]) == "_processed_entries":
+        def requeue(n):
+            st = n.stmt
+            if n.kind == "stmt" and isinstance(st, ast.AugAssign) and isinstance(st.op, ast.Add) and is_pending(st.target) and self_attr(st.value) == "_processed_entries":
                 return True
-        return False
+            if n.kind == "stmt" and isinstance(st, ast.Assign):
+                for t, v in _pairs(st):   # (a, b = x, y  is two stores; the right-hand sides are evaluated before either)
+                    if self_attr(t) == "_unprocessed_entries":
+                        txt = ast.unparse(v)
+                        if "self._processed_entries" in txt and "self._unprocessed_entries" in txt and isinstance(v, ast.BinOp) and isinstance(v.op, ast.Add):
+                            return True
+                return False
+            for c in eng.calls_in_parts(n.ast_parts()):
+                if isinstance(c.func, ast.Attribute) and c.func.attr == "extend" and is_pending(c.func.value) and c.args and self_attr(c.args[0]) == "_processed_entries":
+                    return True
+            return False
 
-    def clears_processed(n):
-        st = n.stmt
-        return n.kind == "stmt" and isinstance(st, ast.Assign) and any(self_attr(t) == "_processed_entries" for t in st.targets)
+        def clears_processed(n):
+            st = n.stmt
+            if n.kind == "stmt" and isinstance(st, ast.Assign) and requeue(n) and any(self_attr(t) == "_processed_entries" for t, v in _pairs(st)):
+                return False  # cleared in the same (tuple) assignment that re-queues: the old list was read first
+            return n.kind == "stmt" and isinstance(st, ast.Assign) and any(self_attr(t) == "_processed_entries" for t, v in _pairs(st))
 
-    def zero_counts(n):
-        st = n.stmt
-        return n.kind == "stmt" and isinstance(st, ast.Assign) and any(self_attr(t) == "_data" for t in st.targets) and isinstance(st.value, ast.Call) and common.call_name(st.value) == "zeros"
+        def zero_counts(n):
+            st = n.stmt
+            return n.kind == "stmt" and isinstance(st, ast.Assign) and any(self_attr(t) == "_data" for t in st.targets) and isinstance(st.value, ast.Call) and common.call_name(st.value) == "zeros"
 
-    clr = [n for n in grb.stmt_nodes() if clears_processed(n)]
-    rq_ok = bool(clr)
-    for n in clr:
-        ok, _ = grb.dominated_by(n.id, requeue)
-        rq_ok = rq_ok and ok
-    ok_all, wit = grb.all_paths_pass(grb.entry.id, requeue)
-    R.ob("G4", "rebin:requeue", rq_ok and ok_all, eng.where(rb), "rebin does not re-queue all processed entries before clearing them (previously filled entries are lost)")
-    ok_z, _ = grb.all_paths_pass(grb.entry.id, zero_counts)
-    R.ob("G4", "rebin:zero", ok_z, eng.where(rb), "rebin does not reset the counts to zeros (re-queued entries would be counted twice)")
-    zs = [n.stmt for n in grb.stmt_nodes() if zero_counts(n)]
-    # the edges may be held in a local that is stored to self._bin_edges in the same function
-    edge_locals = {ast.unparse(n.value) for n in ast.walk(rb.node) if isinstance(n, ast.Assign) and any(self_attr(t) == "_bin_edges" for t in n.targets) and isinstance(n.value, ast.Name)}
-    okl = {"len(self._bin_edges)+1"} | {"len(%s)+1" % e for e in edge_locals}
-    sz_ok = bool(zs) and all(_norm_len(ast.unparse(common.resolve_local(rb.node, z.value.args[0]) if not any(isinstance(x, ast.Name) and x.id in edge_locals for x in ast.walk(z.value.args[0])) else z.value.args[0])) in okl for z in zs)
-    R.ob("G4", "rebin:size", sz_ok, eng.where(rb), "rebin allocates %s counts, expected len(edges)-1 bins + underflow + overflow" % [ast.unparse(z.value.args[0]) for z in zs])
-    fl = eng.cfunc(p.method(H, "fill"))
-    q_ok = False
-    for n in ast.walk(fl.node):
-        if isinstance(n, ast.AugAssign) and self_attr(n.target) == "_unprocessed_entries" and isinstance(n.op, ast.Add):
-            v = n.value
-            if isinstance(v, ast.Name):
-                # a local that holds list(entries) (e.g. converted in a try block, added in its else branch)
-                defs = [a.value for a in ast.walk(fl.node) if isinstance(a, ast.Assign) and len(a.targets) == 1 and isinstance(a.targets[0], ast.Name) and a.targets[0].id == v.id]
-                if len(defs) == 1:
-                    v = defs[0]
-            if isinstance(v, ast.Call) and common.call_name(v) == "list" and v.args and isinstance(v.args[0], ast.Name) and v.args[0].id == "entries":
-                q_ok = True
-        if isinstance(n, ast.Call) and isinstance(n.func, ast.Attribute) and n.func.attr == "extend" and self_attr(n.func.value) == "_unprocessed_entries" and n.args:
-            a0 = common.resolve_local(fl.node, n.args[0])
-            if isinstance(a0, ast.Call) and common.call_name(a0) == "list" and a0.args:
-                a0 = a0.args[0]
-            if isinstance(a0, ast.Name) and a0.id == "entries":
-                q_ok = True
-    R.ob("G4", "fill:queue", q_ok, eng.where(fl), "fill does not queue all given entries")
-    raw = eng.cfunc(H.find_prop("raw_data").fget)
-    txt = []
-    for r in ast.walk(raw.node):
-        if isinstance(r, ast.Return) and r.value is not None:
-            t_ = ast.unparse(common.resolve_local(raw.node, r.value))
-            if isinstance(r.value, ast.Name):
-                # a list that is built up: what it is created from and what is appended to it
-                t_ += " " + " ".join(ast.unparse(c) for c in ast.walk(raw.node) if isinstance(c, ast.Call) and isinstance(c.func, ast.Attribute) and c.func.attr in ("extend", "append")
-                                     and isinstance(c.func.value, ast.Name) and c.func.value.id == r.value.id)
-                t_ += " " + " ".join(ast.unparse(a.value) for a in ast.walk(raw.node) if isinstance(a, (ast.Assign, ast.AugAssign)) and ast.unparse(a.targets[0] if isinstance(a, ast.Assign) else a.target) == r.value.id)
-            txt.append(t_)
-    R.ob("G4", "raw_data", bool(txt) and all("_processed_entries" in t and "_unprocessed_entries" in t for t in txt), eng.where(raw), "raw_data must list processed and pending entries")
-    ne = eng.cfunc(H.find_prop("n_entries").fget)
-    txt = [ast.unparse(r.value) for r in ast.walk(ne.node) if isinstance(r, ast.Return) and r.value is not None]
-    R.ob("G4", "n_entries", bool(txt) and all("sum(self._data)" in t.replace("np.", "") and "len(self._unprocessed_entries)" in t for t in txt), eng.where(ne),
-         "n_entries must be sum of all counts (incl. under/overflow) + number of pending entries, got %s" % txt)
+        clr = [n for n in grb.stmt_nodes() if clears_processed(n)]
+        combined = [n for n in grb.stmt_nodes() if n.kind == "stmt" and isinstance(n.stmt, ast.Assign) and requeue(n) and any(self_attr(t) == "_processed_entries" for t, v in _pairs(n.stmt))]
+        rq_ok = bool(clr) or bool(combined)
+        for n in clr:
+            ok, _ = grb.dominated_by(n.id, requeue)
+            rq_ok = rq_ok and ok
+        ok_all, wit = grb.all_paths_pass(grb.entry.id, requeue)
+        R.ob("G4", "rebin:requeue", rq_ok and ok_all, eng.where(rb), "rebin does not re-queue all processed entries before clearing them (previously filled entries are lost)")
+        ok_z, _ = grb.all_paths_pass(grb.entry.id, zero_counts)
+        R.ob("G4", "rebin:zero", ok_z, eng.where(rb), "rebin does not reset the counts to zeros (re-queued entries would be counted twice)")
+        zs = [n.stmt for n in grb.stmt_nodes() if zero_counts(n)]
+        # the edges may be held in a local that is stored to self._bin_edges in the same function
+        edge_locals = {ast.unparse(n.value) for n in ast.walk(rb.node) if isinstance(n, ast.Assign) and any(self_attr(t) == "_bin_edges" for t in n.targets) and isinstance(n.value, ast.Name)}
+        okl = {"len(self._bin_edges)+1"} | {"len(%s)+1" % e for e in edge_locals}
+        sz_ok = bool(zs) and all(_norm_len(ast.unparse(common.resolve_local(rb.node, z.value.args[0]) if not any(isinstance(x, ast.Name) and x.id in edge_locals for x in ast.walk(z.value.args[0])) else z.value.args[0])) in okl for z in zs)
+        R.ob("G4", "rebin:size", sz_ok, eng.where(rb), "rebin allocates %s counts, expected len(edges)-1 bins + underflow + overflow" % [ast.unparse(z.value.args[0]) for z in zs])
+        fl = eng.cfunc(p.method(H, "fill"))
+        q_ok = False
+        for n in ast.walk(fl.node):
+            if isinstance(n, ast.AugAssign) and self_attr(n.target) == "_unprocessed_entries" and isinstance(n.op, ast.Add):
+                v = n.value
+                if isinstance(v, ast.Name):
+                    # a local that holds list(entries) (e.g. converted in a try block, added in its else branch)
+                    defs = [a.value for a in ast.walk(fl.node) if isinstance(a, ast.Assign) and len(a.targets) == 1 and isinstance(a.targets[0], ast.Name) and a.targets[0].id == v.id]
+                    if len(defs) == 1:
+                        v = defs[0]
+                if isinstance(v, ast.Call) and common.call_name(v) == "list" and v.args and isinstance(v.args[0], ast.Name) and v.args[0].id == "entries":
+                    q_ok = True
+            if isinstance(n, ast.Call) and isinstance(n.func, ast.Attribute) and n.func.attr == "extend" and self_attr(n.func.value) == "_unprocessed_entries" and n.args:
+                a0 = common.resolve_local(fl.node, n.args[0])
+                if isinstance(a0, ast.Call) and common.call_name(a0) == "list" and a0.args:
+                    a0 = a0.args[0]
+                if isinstance(a0, ast.Name) and a0.id == "entries":
+                    q_ok = True
+        R.ob("G4", "fill:queue", q_ok, eng.where(fl), "fill does not queue all given entries")
+        raw = eng.cfunc(H.find_prop("raw_data").fget)
+        txt = []
+        for r in ast.walk(raw.node):
+            if isinstance(r, ast.Return) and r.value is not None:
+                t_ = ast.unparse(common.resolve_local(raw.node, r.value))
+                if isinstance(r.value, ast.Name):
+                    # a list that is built up: what it is created from and what is appended to it
+                    t_ += " " + " ".join(ast.unparse(c) for c in ast.walk(raw.node) if isinstance(c, ast.Call) and isinstance(c.func, ast.Attribute) and c.func.attr in ("extend", "append")
+                                         and isinstance(c.func.value, ast.Name) and c.func.value.id == r.value.id)
+                    t_ += " " + " ".join(ast.unparse(a.value) for a in ast.walk(raw.node) if isinstance(a, (ast.Assign, ast.AugAssign)) and ast.unparse(a.targets[0] if isinstance(a, ast.Assign) else a.target) == r.value.id)
+                txt.append(t_)
+        R.ob("G4", "raw_data", bool(txt) and all("_processed_entries" in t and "_unprocessed_entries" in t for t in txt), eng.where(raw), "raw_data must list processed and pending entries")
+        ne = eng.cfunc(H.find_prop("n_entries").fget)
+        txt = [ast.unparse(r.value) for r in ast.walk(ne.node) if isinstance(r, ast.Return) and r.value is not None]
+        R.ob("G4", "n_entries", bool(txt) and all("sum(self._data)" in t.replace("np.", "") and "len(self._unprocessed_entries)" in t for t in txt), eng.where(ne),
+             "n_entries must be sum of all counts (incl. under/overflow) + number of pending entries, got %s" % txt)
+
+def _pairs(st):
+    """(target, value) pairs of an assignment, tuple assignments taken apart"""
+    out = []
+    for t in st.targets:
+        if isinstance(t, ast.Tuple) and isinstance(st.value, ast.Tuple) and len(t.elts) == len(st.value.elts):
+            out += list(zip(t.elts, st.value.elts))
+        else:
+            out.append((t, st.value))
+    return out
 
 
 def _norm_len(s):
